@@ -8,23 +8,31 @@ import Driver.C17
 import Driver.C20
 import Driver.MocSet
 import Driver.ST
+import Driver.Store
+import Driver.Codec
 
 open Drv
 
 def step (line : String) : String :=
   let toks := (line.trimAscii.toString.splitOn " ").filter (· ≠ "")
-  match (stepC01 toks <|> stepExpr toks <|> stepC03 toks <|> stepC06 toks <|> stepC05 toks <|> stepC18 toks <|> stepC17 toks <|> stepC20 toks <|> stepMocSet toks <|> stepCrash toks <|> stepST toks) with
+  match (stepC01 toks <|> stepExpr toks <|> stepC03 toks <|> stepC06 toks <|> stepC05 toks <|> stepC18 toks <|> stepC17 toks <|> stepC20 toks <|> stepMocSet toks <|> stepCrash toks <|> stepST toks <|> stepCodec toks) with
   | some out => out
   | none => "bad-op"
 
-partial def loop (hin : IO.FS.Stream) (hout : IO.FS.Stream) : IO Unit := do
+partial def loop (hin : IO.FS.Stream) (hout : IO.FS.Stream) (st : Moc.Store.St) : IO Unit := do
   let line ← hin.getLine
   if line.isEmpty then return ()
-  hout.putStrLn (step line)
-  loop hin hout
+  let toks := (line.trimAscii.toString.splitOn " ").filter (· ≠ "")
+  match stepStore st toks with
+  | some (st', out) =>
+    hout.putStrLn out
+    loop hin hout st'
+  | none =>
+    hout.putStrLn (step line)
+    loop hin hout st
 
 def main : IO Unit := do
   let hin ← IO.getStdin
   let hout ← IO.getStdout
-  loop hin hout
+  loop hin hout Moc.Store.St.init
   hout.flush
